@@ -437,7 +437,7 @@ def judge(system, slices):
                 olo, ohi = slices[c["other"]][oa]
                 L = (E[oa][ohi] - E[oa][olo]) * c["props"][j] + c["offsets"][j] + c["goffsets"][j] * sp
                 if not _count_ok(hi - lo, L, E[a], uniform, sp):
-                    bad("size", constraint=ci, obj=nm, axis=a, got=hi - lo, length_cells=L / sp)
+                    bad("size:count-mismatch", constraint=ci, obj=nm, axis=a, got=hi - lo, length_cells=L / sp)
         elif k == "ext":
             a = c["axis"]
             touched[nm][a] = True
